@@ -117,8 +117,8 @@ func ruleH1(c *Ctx) {
 		}
 	}
 	for i := 0; i < slots.NumFields(); i++ {
-		if stored[slots.Field(i).Name()] == nil {
-			c.violate("H1", "slot/"+slots.Field(i).Name(), f.Pos(), "handler slot "+slots.Field(i).Name()+" is filled from the plugin", "setupHandlers never assigns this slot: the handler is never called")
+		if stored[fname(slots.Field(i))] == nil {
+			c.violate("H1", "slot/"+fname(slots.Field(i)), f.Pos(), "handler slot "+fname(slots.Field(i))+" is filled from the plugin", "setupHandlers never assigns this slot: the handler is never called")
 		}
 	}
 	// event bits
@@ -354,7 +354,7 @@ func ruleH2(c *Ctx) {
 	// expected argument fields per slot (after ctx); frozen only where two parameters share a type
 	frozen := map[string][]string{"UpdatePodSandbox": {"Pod", "OverheadLinuxResources", "LinuxResources"}}
 	for i := 0; i < slots.NumFields(); i++ {
-		slot := slots.Field(i).Name()
+		slot := fname(slots.Field(i))
 		key := "slot/" + slot
 		what := "handler " + slot + " is dispatched once, for its own request/event, with the message's contents"
 		hl := bySlot[slot]
